@@ -140,7 +140,7 @@ def check(fx, rep, tier):
     # values being registered. Sorting / taking a minimum by anything that contains a type variable turns that hidden order into
     # visible output order.
     ORDERERS = {"sort", "sort_unstable", "sorted", "sorted_unstable", "sort_by_key", "sort_unstable_by_key", "sort_by_cached_key", "sorted_by_key", "sorted_by_cached_key",
-                "min", "max", "min_by_key", "max_by_key", "dedup", "binary_search", "sort_by", "sorted_by", "min_by", "max_by"}
+                "min", "max", "min_by_key", "max_by_key", "sort_by", "sorted_by", "min_by", "max_by"}
     IDENT = ("TypeVariable", "tc::expression::Span", "tc::expression::TypeExpression", "tc::unification::Judgement", "tc::unification::Equality", "std::sync::Arc<", "*const", "*mut")
     n_ord = 0
     for name in sorted(pipe):
